@@ -354,6 +354,11 @@ func shrinkValue(s *schema.Schema, t schema.Type, v val.Value) []val.Value {
 				}
 			}
 		case schema.KUnion:
+			if len(v.Also) > 0 {
+				c := v
+				c.Also = nil
+				out = append(out, c)
+			}
 			if v.Body != nil {
 				for _, br := range d.Branches {
 					if br.Disc == v.Disc {
